@@ -152,4 +152,15 @@ CHECKS = {
            "conformance of the generated recogniser to the language definition."),
   "design_ref": "DESIGN.md §5 C04", "note": _NOTE + " The generated UVL lexer/parser of the uvl package is trusted as the grammar.",
   "technique": "static analysis: reader AST evaluated over recogniser parse trees of reference documents (all surface-choice combinations) and invalid documents; grammar-alternative exhaustiveness from the generated parser source"},
+ "C06": {
+  "text": ("CODEC closure for AFM by composing AFMWriter.transform and AFMReader.transform (plus the dependency's get_tree "
+           "from source) with the generated AFM recogniser as grammar between them: per class of every dimension of the "
+           "fragment (mandatory/optional children, [a,b] groups over the well-formed cardinality domain, several "
+           "relations per parent, integer-range and enumerated attribute domains with default and null, each of NOT AND "
+           "OR IMPLIES IFF REQUIRES EXCLUDES at every position incl. nestings needing parentheses up to depth 3) the "
+           "model read back equals the one written (constraints by truth table, ranges as integers); cycles are "
+           "fixpoints with identical text; returned = written (UTF-8); reader output well-formed (unary operand first). "
+           "Not decided: names outside the AFM WORD token; deeper random trees."),
+  "design_ref": "DESIGN.md §5 C06", "note": _NOTE + " The generated AFM lexer/parser of afmparser is trusted as the grammar.",
+  "technique": "static analysis: writer/reader agreement (CODEC) by evaluating both transformation ASTs over finite abstractions of every carried dimension; generated recogniser as grammar table; truth-table equivalence"},
 }
